@@ -361,9 +361,12 @@ def judge_units(d):
             sg = tuple(sig_px * scale) if d["sigma_tuple"] else float(sig_px[0] * scale)
             if not d["sigma_tuple"]:
                 sig_px = np.array([sig_px[0]] * 3)
-            g = np.asarray(pipe.from_gaussian(tuple(shp_px * scale), sg, tuple(sh_px * scale))(scale), dtype=np.float64)
+            # the box size in nm need not be a whole number of pixels: it is rounded to shp_px voxels, and the Gaussian is centred
+            # in *that* box
+            shp_nm = (shp_px + np.array(d.get("gfrac", [0.0, 0.0, 0.0]))) * scale
+            g = np.asarray(pipe.from_gaussian(tuple(shp_nm), sg, tuple(sh_px * scale))(scale), dtype=np.float64)
             if g.shape != tuple(int(s) for s in shp_px):
-                out.append(viol("C19/from_gaussian-shape", f"shape {tuple(shp_px * scale)} nm at scale {scale}: {g.shape} != {tuple(int(s) for s in shp_px)}"))
+                out.append(viol("C19/from_gaussian-shape", f"shape {tuple(shp_nm)} nm at scale {scale}: {g.shape} != {tuple(int(s) for s in shp_px)}"))
             else:
                 grids = np.indices(g.shape, dtype=np.float64)
                 c = (shp_px - 1) / 2 + sh_px
@@ -373,7 +376,7 @@ def judge_units(d):
                     pk = np.unravel_index(int(np.argmax(g)), g.shape)
                     out.append(viol("C19/from_gaussian", f"shape={tuple(int(s) for s in shp_px)}px sigma={sig_px.tolist()}px shift={sh_px.tolist()}px scale={scale}: "
                                     f"differs from exp(-sum((x-c)^2/2 sigma^2)) by {e:.3g}; peak at {tuple(int(p) for p in pk)} (value {g.max():.3g}), expected centre {c.tolist()}"))
-                g2 = np.asarray(pipe.from_gaussian(tuple(shp_px * scale * lam), tuple(sig_px * scale * lam) if d["sigma_tuple"] else float(sig_px[0] * scale * lam),
+                g2 = np.asarray(pipe.from_gaussian(tuple(shp_nm * lam), tuple(sig_px * scale * lam) if d["sigma_tuple"] else float(sig_px[0] * scale * lam),
                                                    tuple(sh_px * scale * lam))(scale * lam), dtype=np.float64)
                 if g2.shape != g.shape or not close(g, g2):
                     out.append(viol("C19/scale-covariance:from_gaussian", f"lambda={lam}: from_gaussian changes when parameters and scale are multiplied together"))
@@ -573,6 +576,7 @@ def unit_cases(draw):
         d["rpx"] = draw(st.sampled_from([0.5, 1.4, 2.3, -1.4]))
     elif kind == "gaussian":
         d["gshape"] = [draw(st.integers(5, 12)) for _ in range(3)]
+        d["gfrac"] = [draw(st.sampled_from([0.0, 0.0, 0.3, -0.3, 0.45, -0.2])) for _ in range(3)]
         d["gsigma"] = [draw(st.sampled_from([0.8, 1.2, 1.9, 2.6])) for _ in range(3)]
         d["gshift"] = [draw(st.sampled_from([0.0, 0.0, 0.75, -1.25, 1.5])) for _ in range(3)]
         d["sigma_tuple"] = draw(st.booleans())
